@@ -276,7 +276,7 @@ pub fn op(p: &Profile, depth: u32, in_cb: bool, d: &mut Dec) -> Op {
             5 => Op::AsyncOwnRead { a: d.u16() },
             _ => Op::AsyncGive { a: d.u16(), tok: d.u16() },
         },
-        8 => Op::InsertBad { which: d.u8r(0, 2) },
+        8 => Op::InsertBad { which: d.u8r(0, 2), mode: d.u8r(0, 2), give: d.pct(40) },
         9 => match d.pickw(&[5, 4, 1, 4, 1]) {
             0 => {
                 let src = d.u16();
